@@ -21,7 +21,7 @@ open Txdbus.AuthClient
 namespace DrvC07
 
 def errName : CookieErr → Bytes
-  | .oddLength => b!"oddLength" | .nonHex => b!"nonHex" | .arity => b!"arity" | .stat => b!"stat"
+  | .oddLength => b!"oddLength" | .nonHex => b!"nonHex" | .arity => b!"arity" | .badContext => b!"badContext" | .stat => b!"stat"
   | .perms => b!"perms" | .owner => b!"owner" | .ctxAscii => b!"ctxAscii" | .openFile => b!"openFile"
   | .noCookie => b!"noCookie"
 
